@@ -156,7 +156,7 @@ def run(ctx):
         failures=[f for f in failures[:20]],
         exhaustive=False,
     )
-    ctx.need(len(observed) >= 0.98 * len(cases), "only %d of %d cases observed" % (len(observed), len(cases)))
+    ctx.need(len(observed) >= 0.98 * len({c.key for c in cases}), "only %d of %d cases observed" % (len(observed), len(cases)))
 
 
 def replay(ctx, rep):
